@@ -133,6 +133,9 @@ impl Duration {
     #[verifier::external_body]
     pub fn is_zero(&self) -> (r: bool) ensures r == self.zero() { unimplemented!() }
 }
+/// `Duration::ZERO`
+#[verifier::external_body]
+pub fn vx_duration_zero() -> (r: Duration) ensures r.zero() { unimplemented!() }
 impl Time {
     pub uninterp spec fn ttl_of(&self) -> Duration;
     /// Time::now_with_expiration(d) (proved by Kani: is_zero() <=> d == 0)
